@@ -454,6 +454,7 @@ void SmootherGive::solveCircleSection(const int i_r, Vector<double>& x, Vector<d
     }
     // Move updated values to x
     std::move(temp.begin() + start, temp.begin() + end, x.begin() + start);
+    VERIF_RANGE(x.begin() + start, end - start, true);
 }
 
 void SmootherGive::solveRadialSection(const int i_theta, Vector<double>& x, Vector<double>& temp,
@@ -465,6 +466,7 @@ void SmootherGive::solveRadialSection(const int i_theta, Vector<double>& x, Vect
     radial_tridiagonal_solver_[i_theta].solveInPlace(temp.begin() + start, solver_storage.begin());
     // Move updated values to x
     std::move(temp.begin() + start, temp.begin() + end, x.begin() + start);
+    VERIF_RANGE(x.begin() + start, end - start, true);
 }
 
 /* ------------------ */
